@@ -374,7 +374,15 @@ class Executor:
     w = self.world.resolve_global(self, fr.fname, name)
     if w is not None:
       return w
+    if name in self.local_names(fr):
+      # a local read before any assignment on this path: Python raises UnboundLocalError
+      self.py_raise('UnboundLocalError', node, note=f'local `{name}` read before assignment')
     self.oos(f'unresolved name {name}', node)
+
+  def local_names(self, fr):
+    if not hasattr(fr, '_local_names'):
+      fr._local_names = extract.assigned_names(fr.fdef.body) - fr.globals_declared
+    return fr._local_names
 
   def assign_name(self, name, w, node=None):
     fr = self.frame
@@ -865,6 +873,9 @@ class Executor:
         c = C.REGISTRY.get(qual)
         if c is not None and c.is_cm:
           return ContractCM(c, args, kwargs, node)
+        if qual in getattr(self.world, 'INLINE_CMS', ()):
+          selfw = fn.payload[0] if fn.what == 'method' else None
+          return InlineCM(qual, args, kwargs, selfw, node)
       if isinstance(fn, VObj) or (isinstance(fn, VPy) and fn.what == 'opaque'):
         return OpaqueCM(fn, args, kwargs, node)
     self.oos('unsupported context manager expression', node)
@@ -1282,8 +1293,8 @@ class Executor:
     args = [p.e for p in parts if p.concrete() is None]
     if not args:
       return VStr(''.join(p.concrete() for p in parts))
-    f = sym.ufun('strf!' + pat, *([sym.Str] * len(args) + [sym.Str]))
-    return VStr(f(*args))
+    # the canonical concatenation of the pieces (same term as the equivalent `+` chain)
+    return VStr(self.world.str_cat([p.e for p in parts]))
 
   def to_str(self, w, node=None):
     if isinstance(w, VOpt) and isinstance(w.inner, VStr):
@@ -1373,7 +1384,7 @@ class Executor:
         return a
       if ca is not None and cb is not None:
         return VStr(ca + cb)
-      return VStr(sym.ufun('str_concat', sym.Str, sym.Str, sym.Str)(a.e, b.e))
+      return VStr(self.world.str_cat([a.e, b.e]))
     if op == 'Add' and isinstance(a, VList) and isinstance(b, VList):
       r = a.copy()
       r.extend(b)
@@ -2017,6 +2028,9 @@ class Executor:
                note=f'raised by {c.qual} (unlisted)')
     ctx2 = Ctx(self.path, args_snap, old, self.snapshot_state(), exc=exc,
                ghost=self.path.ghost, trace=self.path.trace)
+    if selfw is not None:
+      ctx2.self_new = selfw
+      ctx2.self_old = args_snap['self']
     for cl in c.exc_ensures:
       self.path.assume(cl.fn(ctx2))
     raise PyRaise(exc)
@@ -2107,6 +2121,65 @@ class OpaqueCM:
     pass
 
   def exit_exc(self, ex, exc, node):
+    return False
+
+
+class InlineCM:
+  """A small generator-based context manager executed from its real source at the with-site.
+  Accepted shapes:  <pre>; try: yield  finally: <fin>    and    <pre>; yield; <post>
+  (no handlers, nothing yielded): <pre> runs on entry, <fin> on every exit, <post> only on a
+  normal exit -- exactly what contextlib.contextmanager does for these shapes."""
+
+  def __init__(self, qual, args, kwargs, selfw, node):
+    self.qual, self.args, self.kwargs, self.selfw, self.node = qual, args, kwargs, selfw, node
+
+  @staticmethod
+  def _is_yield(st):
+    return isinstance(st, ast.Expr) and isinstance(st.value, ast.Yield) and st.value.value is None
+
+  def _shape(self, ex, fdef):
+    body = [s for s in fdef.body
+            if not (isinstance(s, ast.Expr) and isinstance(s.value, ast.Constant))]
+    for i, st in enumerate(body):
+      if self._is_yield(st):
+        return body[:i], [], body[i + 1:]
+      if isinstance(st, ast.Try) and not st.handlers and not st.orelse and \
+          len(st.body) == 1 and self._is_yield(st.body[0]) and i == len(body) - 1:
+        return body[:i], st.finalbody, []
+    ex.oos(f'context manager {self.qual} has a shape that is not inlined', self.node)
+
+  def _run(self, ex, stmts):
+    if self.selfw is not None and isinstance(self.node.func, ast.Attribute):
+      # the receiver may have been replaced since entry (e.g. havoced at a loop cut)
+      cur = ex.ev(self.node.func.value)
+      params = [a.arg for a in self.fr.fdef.args.args]
+      if params:
+        self.fr.env[params[0]] = cur
+    ex.frames.append(self.fr)
+    ex.depth += 1
+    try:
+      ex.exec_block(stmts)
+    finally:
+      ex.depth -= 1
+      ex.frames.pop()
+
+  def enter(self, ex, item, node):
+    fdef = ex.repo.find(self.qual)
+    if fdef is None:
+      ex.oos(f'inlined context manager {self.qual} not found', node)
+    self.pre, self.fin, self.post = self._shape(ex, fdef)
+    env = ex.bind_params(fdef, self.args, self.kwargs, node, self.selfw)
+    self.fr = Frame(self.qual, fdef, env)
+    if item.optional_vars is not None:
+      ex.oos('inlined context manager with an `as` target', node)
+    self._run(ex, self.pre)
+
+  def exit_ok(self, ex, node):
+    self._run(ex, self.fin)
+    self._run(ex, self.post)
+
+  def exit_exc(self, ex, exc, node):
+    self._run(ex, self.fin)       # an exception raised here replaces the pending one
     return False
 
 
